@@ -13,6 +13,7 @@ import (
 func doMore(repo, outDir string) {
 	doMemory(repo, outDir)
 	doMisc(repo, outDir)
+	doFlow(repo, outDir)
 	doConfig(repo, outDir)
 }
 
